@@ -136,6 +136,9 @@ def gen_case(rng, i, neutral_only=False):
                 arg = fld(rng.randrange(width)) if rng.random() < 0.8 else ['concat', fld(0), ['str', '!']]
                 if opt_col is not None and rng.random() < 0.4:
                     arg = fld(opt_col)
+                elif rng.random() < 0.15:
+                    # a list-valued argument: one element per record, the element being the list (an empty one too)
+                    arg = rng.choice([['split', fld(0), ' '], ['list', [fld(0), ['NR']]], ['list', []], ['split', fld(0), 'a']])
             items.append({'kind': 'agg', 'func': func, 'spelling': sp, 'arg': arg})
         if rng.random() < 0.15:
             items[-1]['alias'] = g.alias()
